@@ -71,7 +71,7 @@ def cstr(s):
 # ----------------------------------------------------------------------------------------------
 # Parser for values printed by Coq (lists, tuples, constructors, numbers, rationals, strings)
 # ----------------------------------------------------------------------------------------------
-_TOK = re.compile(r'\s*(?:(\[|\]|\(|\)|;|,|#)|(-?\d+)|("(?:[^"]|"")*")|([A-Za-z_][A-Za-z_0-9\.\']*)|(%[A-Za-z_]+))')
+_TOK = re.compile(r'\s*(?:(\[|\]|\(|\)|;|,|#)|(-?\d+(?:\.\d+)?(?:[eE][-+]?\d+)?)|("(?:[^"]|"")*")|([A-Za-z_][A-Za-z_0-9\.\']*)|(%[A-Za-z_]+))')
 
 
 def _tokens(s):
@@ -88,7 +88,8 @@ def _tokens(s):
         if m.group(1):
             out.append(m.group(1))
         elif m.group(2):
-            out.append(int(m.group(2)))
+            t = m.group(2)
+            out.append(int(t) if re.fullmatch(r'-?\d+', t) else Fraction(t))
         elif m.group(3):
             out.append(('str', m.group(3)[1:-1].replace('""', '"')))
         else:
@@ -130,7 +131,7 @@ class _P:
             y = self.next()
             assert y == ')', y
             return items[0] if len(items) == 1 else tuple(items)
-        if isinstance(x, int):
+        if isinstance(x, (int, Fraction)):
             return x
         if isinstance(x, tuple) and x[0] == 'str':
             return x[1]
@@ -286,9 +287,7 @@ def coq_deps(pid):
             continue
         seen.add(p)
         txt = re.sub(r'\(\*.*?\*\)', '', open(p).read(), flags=re.S)
-        for m in re.finditer(r'From\s+SKN\s+Require\s+(?:Import|Export)?\s*([^.]*(?:\.[A-Za-z_][^.\s]*)*)\.', txt):
-            pass
-        for m in re.finditer(r'From\s+SKN\s+Require\s+(?:Import\s+|Export\s+)?((?:[A-Za-z_0-9\.]+\s*)+)\.\s', txt):
+        for m in re.finditer(r'From\s+SKN\s+Require\s+(?:Import\s+|Export\s+)?([A-Za-z_0-9\.\s]+?)\.(?=\s|$)', txt):
             for mod in m.group(1).split():
                 todo.append(os.path.join(COQ, mod.replace('.', '/') + '.v'))
     return sorted(seen)
@@ -312,26 +311,27 @@ def coq_eval(tag, imports, exprs, prelude='', shard=400, timeout=600):
             f.write('Definition the_cases := [\n' + ';\n'.join(exprs[k:k + shard]) + '\n].\n')
             f.write('Eval vm_compute in the_cases.\n')
         files.append(path)
-    procs = []
-    outs = []
     maxp = 8
     idx = 0
     results = [None] * len(files)
     running = {}
     while idx < len(files) or running:
         while idx < len(files) and len(running) < maxp:
+            # stdout goes to a file: a pipe would block coqc once 64 KB of output are pending
+            fo = open(files[idx][:-2] + '.out', 'w')
             p = subprocess.Popen(['timeout', str(timeout), 'coqc'] + coq_flags() + [files[idx]], cwd=COQ,
-                                 stdout=subprocess.PIPE, stderr=subprocess.STDOUT, text=True)
-            running[idx] = p
+                                 stdout=fo, stderr=subprocess.STDOUT)
+            running[idx] = (p, fo)
             idx += 1
-        for i, p in list(running.items()):
+        for i, (p, fo) in list(running.items()):
             if p.poll() is not None:
-                results[i] = (p.returncode, p.stdout.read())
+                fo.close()
+                results[i] = (p.returncode, open(files[i][:-2] + '.out', errors='replace').read())
                 del running[i]
         time.sleep(0.02)
     values = []
     for path, (rc, out) in zip(files, results):
-        for ext in ('.v', '.vo', '.vok', '.vos', '.glob'):
+        for ext in ('.v', '.vo', '.vok', '.vos', '.glob', '.out'):
             try:
                 os.remove(path[:-2] + ext)
             except OSError:
